@@ -1272,6 +1272,34 @@ class RankInvariance(Family):
             out["back"] = nested_of_tree(tskit.Tree.unrank(n, tuple(out["rank"])))
         except Exception as e:        # the rank of a valid tree must be accepted by unrank
             out["back"] = exc_class(e)
+        # leaves != samples: rank() is defined by the leaf-labelled topology, so sample flags on
+        # internal nodes / the root, and leaves that are not samples, must not change it
+        flagged = []
+        for mode in ("internal", "root", "nonsample_leaf", "mixed"):
+            tb = base.tree_sequence.dump_tables()
+            fl = tb.nodes.flags.copy()
+            internal = [u for u in range(tb.nodes.num_rows) if u >= n]
+            if mode in ("internal", "mixed"):
+                for u in internal:
+                    if rng.random() < 0.5:
+                        fl[u] |= 1
+                if internal and not any(fl[u] & 1 for u in internal):
+                    fl[rng.choice(internal)] |= 1
+            if mode == "root":
+                fl[base.root] |= 1
+            if mode in ("nonsample_leaf", "mixed") and n >= 2:
+                off = rng.sample(range(n), rng.randrange(1, n))       # at least one sample leaf stays
+                for u in off:
+                    fl[u] = int(fl[u]) & 0xFFFFFFFE
+            tb.nodes.flags = fl
+            try:
+                tr = tb.tree_sequence().first()
+                r = tr.rank()
+                flagged.append({"mode": mode, "rank": [int(r[0]), int(r[1])], "num_roots": int(tr.num_roots),
+                                "same_topology": nested_of_tree(tr) == nested_of_tree(base) if tr.num_roots == 1 else None})
+            except Exception as e:
+                flagged.append({"mode": mode, "exc": exc_class(e) + ": " + str(e)[:60]})
+        out["flagged"] = flagged
         return out
 
     def oracle(self, case, obs):
@@ -1288,6 +1316,14 @@ class RankInvariance(Family):
             out.append(("rank-not-invariant-leaf-renumbering", "%r: %r vs %r" % (case["tree"], obs["mono"]["rank"], obs["rank"])))
         if obs["back"] != case["tree"]:
             out.append(("unrank-rank-mismatch", "unrank(rank(%r)) = %r" % (case["tree"], obs["back"])))
+        for f in obs.get("flagged", []):
+            if "exc" in f:
+                out.append(("rank-depends-on-sample-flags", "%s: %r raises %s" % (f["mode"], case["tree"], f["exc"])))
+            elif f["num_roots"] == 1 and f["same_topology"] and f["rank"] != obs["rank"]:
+                out.append(("rank-depends-on-sample-flags", "%s: %r ranks %r, leaf topology ranks %r"
+                            % (f["mode"], case["tree"], f["rank"], obs["rank"])))
+            if out:
+                break
         return out
 
     def coq_check(self, case, obs):
@@ -1704,7 +1740,10 @@ class CountTopologies(Family):
                 k = rng.randrange(nsets)
                 if len(sets[k]) < 4:
                     sets[k].append(u)
-            yield {"desc": desc, "sets": [sorted(x) for x in sets]}
+            desc, pi = gen_ts.permute_node_ids(rng, desc, p=0.5)
+            if pi is not None:
+                sets = [[pi[u] for u in x] for x in sets]
+            yield {"desc": desc, "sets": [sorted(x) for x in sets], "permuted": pi is not None}
         # (2) the shared generator: several roots, dead branches, gaps, isolated samples
         while made < want:
             desc = gen_ts.random_desc(rng, max_nodes=rng.choice([6, 8, 10, 12]), max_L=rng.choice([1, 3, 6]),
@@ -1723,7 +1762,10 @@ class CountTopologies(Family):
                 sets[i if i < nsets else rng.randrange(nsets)].append(u)
             if rng.random() < 0.08:
                 sets.append([])          # an empty sample set
-            yield {"desc": desc, "sets": [sorted(s) for s in sets]}
+            desc, pi = gen_ts.permute_node_ids(rng, desc, p=0.5)
+            if pi is not None:
+                sets = [[pi[u] for u in x] for x in sets]
+            yield {"desc": desc, "sets": [sorted(s) for s in sets], "permuted": pi is not None}
             made += 1
 
     def observe(self, case):
@@ -1839,7 +1881,7 @@ class CountTopologies(Family):
         return len(case["sets"]) >= 2 and any(len(d) > 1 for d in obs["per_tree"] if "exc" not in d)
 
     def describe(self, case, obs):
-        return {"nsets": len(case["sets"]), "ntrees": len(obs["lefts"]), "twin": bool(case.get("twin")), "default_sets": bool(case.get("default")), "tworoots": bool(case.get("tworoots")),
+        return {"nsets": len(case["sets"]), "ntrees": len(obs["lefts"]), "twin": bool(case.get("twin")), "default_sets": bool(case.get("default")), "permuted_ids": bool(case.get("permuted")), "tworoots": bool(case.get("tworoots")),
                 "max_key": max((len(k.split(",")) for d in obs["per_tree"] for k in d if k != "exc"), default=0)}
 
     def shrink(self, case):
@@ -1852,8 +1894,163 @@ class CountTopologies(Family):
                     yield dict(case, sets=sets[:i] + [sets[i][:j] + sets[i][j + 1:]] + sets[i + 1:])
 
 
+def multi_topology_desc(rng):
+    """A tree sequence of 2..5 trees over the same 3..7 sample leaves, every tree an independent
+    random unary-free topology with its own internal nodes (all trees are rankable)."""
+    n = rng.randrange(3, 8)
+    L = rng.randrange(2, 6)
+    nodes = [[1, 0, -1, -1, ""] for _ in range(n)]
+    edges = []
+    for x in range(L):
+        t = random_topology(rng, range(n), p_poly=rng.choice([0, 0.3]))
+
+        def rec(y):
+            if isinstance(y, int):
+                return y, 0
+            kids = [rec(c) for c in y]
+            tm = max(k[1] for k in kids) + 1
+            u = len(nodes)
+            nodes.append([0, tm, -1, -1, ""])
+            for k, _ in kids:
+                edges.append([x, x + 1, u, k, ""])
+            return u, tm
+        rec(t)
+    rng.shuffle(edges)
+    return {"L": L, "scale": rng.choice([1, 0.5, 2.5]), "nodes": nodes, "edges": edges, "sites": [],
+            "mutations": [], "individuals": [], "populations": [], "migrations": []}
+
+
+class TreeNavigation(Family):
+    """ONE Tree object moved through a multi-tree sequence by every navigation operation; at
+    every position rank() (sometimes twice) and count_topologies(sets) must equal those of a
+    fresh Tree at that index: no derived state may survive a repositioning."""
+    name = "tree_navigation"
+    workers = 8
+    timeout = 120.0
+    OPS = ("next", "prev", "first", "last", "seek", "seek_index", "seek_index_neg", "clear", "copy",
+           "iter_fwd", "iter_rev", "rank_twice")
+
+    def generate(self, rng, tier):
+        from harness import gen_ts
+        for _ in range(70 if tier == "quick" else 600):
+            while True:
+                desc = (multi_topology_desc(rng) if rng.random() < 0.7
+                        else moves_desc(rng, vanish_p=rng.choice([0.0, 0.0, 0.4])))
+                if desc["L"] >= 2:
+                    break
+            samples = [i for i, nd in enumerate(desc["nodes"]) if nd[0] & 1]
+            sets = [[], []]
+            for u in samples:
+                if rng.random() < 0.8:
+                    sets[rng.randrange(2)].append(u)
+            desc, pi = gen_ts.permute_node_ids(rng, desc, p=0.4)
+            if pi is not None:
+                sets = [[pi[u] for u in x] for x in sets]
+            ops = [rng.choice(self.OPS) for _ in range(rng.randrange(6, 16))]
+            yield {"desc": desc, "sets": [sorted(x) for x in sets], "ops": ops,
+                   "args": [rng.random() for _ in ops]}
+
+    @staticmethod
+    def _probe(tree, sets):
+        try:
+            r = tree.rank()
+            rk = [int(r[0]), int(r[1])]
+        except Exception as e:
+            rk = exc_class(e)
+        try:
+            ct = _counter_obs(tree.count_topologies(sets))
+        except Exception as e:
+            ct = exc_class(e)
+        return {"index": int(tree.index), "rank": rk, "count": ct}
+
+    def observe(self, case):
+        import tskit
+        from harness import gen_ts
+        ts = gen_ts.build_tables(case["desc"]).tree_sequence()
+        sets = case["sets"]
+        fresh = [self._probe(ts.at_index(i), sets) for i in range(ts.num_trees)]
+        tree = tskit.Tree(ts)
+        log = []
+
+        def rec(op):
+            if tree.index != -1:
+                p = self._probe(tree, sets)
+                p["op"] = op
+                log.append(p)
+        for op, a in zip(case["ops"], case["args"]):
+            try:
+                if op == "next":
+                    tree.next()
+                elif op == "prev":
+                    tree.prev()
+                elif op == "first":
+                    tree.first()
+                elif op == "last":
+                    tree.last()
+                elif op == "seek":
+                    tree.seek(a * ts.sequence_length * 0.999999)
+                elif op == "seek_index":
+                    tree.seek_index(int(a * ts.num_trees) % ts.num_trees)
+                elif op == "seek_index_neg":
+                    tree.seek_index(-1 - int(a * ts.num_trees) % ts.num_trees)
+                elif op == "clear":
+                    tree.clear()
+                elif op == "copy":
+                    tree = tree.copy()
+                elif op == "rank_twice":
+                    rec("rank_twice(1)")
+                elif op == "iter_fwd":
+                    for t in ts.trees():
+                        if a < 0.5 or t.index % 2 == 0:
+                            p = self._probe(t, sets)
+                            p["op"] = "iter_fwd"
+                            log.append(p)
+                    continue
+                elif op == "iter_rev":
+                    for t in reversed(ts.trees()):
+                        if a < 0.5 or t.index % 2 == 0:
+                            p = self._probe(t, sets)
+                            p["op"] = "iter_rev"
+                            log.append(p)
+                    continue
+            except Exception as e:
+                log.append({"op": op, "exc": exc_class(e)})
+                continue
+            rec(op)
+        return {"fresh": fresh, "log": log}
+
+    def oracle(self, case, obs):
+        out = []
+        for k, p in enumerate(obs["log"]):
+            if "exc" in p:
+                out.append(("navigation-raises", "%s: %s" % (p["op"], p["exc"])))
+                break
+            f = obs["fresh"][p["index"]]
+            if p["rank"] != f["rank"]:
+                out.append(("rank-stale-after-%s" % p["op"].split("(")[0],
+                            "step %d (%s) at tree %d: rank() = %r, a fresh Tree there gives %r"
+                            % (k, p["op"], p["index"], p["rank"], f["rank"])))
+                break
+            if p["count"] != f["count"]:
+                out.append(("count-stale-after-%s" % p["op"].split("(")[0],
+                            "step %d (%s) at tree %d" % (k, p["op"], p["index"])))
+                break
+        return out
+
+    def nontrivial(self, case, obs):
+        return len({p.get("index") for p in obs["log"]}) >= 2
+
+    def describe(self, case, obs):
+        d = {"ntrees": len(obs["fresh"]), "ranked": sum(1 for f in obs["fresh"] if isinstance(f["rank"], list))}
+        return d
+
+    def shrink(self, case):
+        for i in range(len(case["ops"])):
+            yield dict(case, ops=case["ops"][:i] + case["ops"][i + 1:], args=case["args"][:i] + case["args"][i + 1:])
+
+
 FAMILIES = [Comb, CombRank, CombWR, Parts, NumShapes, TreeBlock, TreeRankUnrank, AllTrees,
-            AllLabellings, TreeBig, TreeWide, TreeOOR, RankInvariance, CountTopologies]
+            AllLabellings, TreeBig, TreeWide, TreeOOR, RankInvariance, TreeNavigation, CountTopologies]
 
 NOT_COVERED = [
     "tree_count_topologies / TopologyCounter / PartialTopologyCounter are modelled (C15/CountTopo.v) and tied by correspondence, but no theorem relates the model to the brute-force definition yet; treeseq_count_topologies (incremental update_state) is tied differentially only",
